@@ -6,6 +6,7 @@ import numpy as np
 
 from . import common as C
 from translate import lincomb as TL
+from translate import space_ops as TS
 
 PID = 'C01'
 SHARD_SIZE = 120
@@ -50,10 +51,10 @@ def lit(carrier, v):
         return '(%s, %s)' % (_q(v.real), _q(v.imag))
     if carrier == 'nan':
         v = float(v)
-        return 'None' if v != v else '(Some %s)' % C.q(v)
+        return 'None' if (v != v or v in (float('inf'), float('-inf'))) else '(Some %s)' % C.q(v)
     if carrier == 'cxnan':
         v = complex(v)
-        if v.real != v.real or v.imag != v.imag:
+        if not (np.isfinite(v.real) and np.isfinite(v.imag)):
             return 'None'
         return '(Some (%s, %s))' % (C.q(v.real), C.q(v.imag))
     raise ValueError(carrier)
@@ -229,7 +230,7 @@ def layout_choice(rng, ndim, want_blas=False):
     return rng.choice(['CCC', 'FFF', 'CFC', 'FCF', 'CCF', 'SCC', 'CCS', 'FSF', 'SSS'])
 
 
-IMPORTS = ['C01.Syntax', 'Gen.Lincomb', 'C01.Carriers', 'C01.Model', 'C01.ModelSpace', 'C01.Corr']
+IMPORTS = ['C01.Syntax', 'Gen.Lincomb', 'Gen.SpaceOps', 'C01.Carriers', 'C01.Model', 'C01.ModelSpace', 'C01.Corr']
 BIG_CHUNK = 5       # big cases per shard (each costs ~1.5 s of vm_compute)
 
 
@@ -279,7 +280,8 @@ def lincomb_cases(rng, tier, S):
         # A. every (alias, scalar pair) combination in the direct and the fallback regime
         for shape in ([(3,), (120,)] if base == 'int' else [(3,), (100,)]):
             for alias in ALIAS:
-                for a, b in pairs:
+                # (the non-main floating dtypes share the code path of float64 / complex128 below 50000 entries: a sample in quick)
+                for a, b in (pairs if (not quick or main or base == 'int') else rng.sample(pairs, 8)):
                     run(shape, alias, a, b)
         # B. the BLAS regime (and its borders).  The decision tree is shared with the fallback
         #    regime (covered exhaustively in A); here the three BLAS primitives, the regime rule and
@@ -318,7 +320,7 @@ def lincomb_cases(rng, tier, S):
         # C. shape sweep
         for shape in small + med:
             for alias in ALIAS:
-                for a, b in rng.sample(pairs, 2 if quick else 6):
+                for a, b in rng.sample(pairs, (2 if main else 1) if quick else 6):
                     run(shape, alias, a, b)
         # D. poisoned runs (floating dtypes): NaN in every buffer the call must not read
         #    (`out` when it is not an operand, the unused third buffer), and NaN inside an operand
@@ -455,11 +457,13 @@ class Ctx(object):
             out = '(ECons %s %s)' % (t, out)
         return out
 
-    def hidden_like(self, el):
-        """Model-only temporary with the structure of el (e.g. the element returned by one())."""
+    def hidden_like(self, el, values=None):
+        """Model-only element with the structure of el: a temporary (e.g. the element returned by one()),
+        or, with `values` (list of leaf arrays, consumed in order), the element the implementation
+        builds from an array-like operand."""
         import odl
         if _is_pse(el):
-            ts = [self.hidden_like(p) for p in el.parts]
+            ts = [self.hidden_like(p, values) for p in el.parts]
             out = 'ENil'
             for t in reversed(ts):
                 out = '(ECons %s %s)' % (t, out)
@@ -467,7 +471,10 @@ class Ctx(object):
         t = el.tensor if _is_dse(el) else el
         self.objs.append(None)
         kind = complex if t.data.dtype.kind == 'c' else float
-        self.init.append(np.full(t.data.shape, np.nan if self.poison else 0, dtype=kind))
+        if values is not None:
+            self.init.append(np.array(values.pop(0), dtype=kind).reshape(t.data.shape))
+        else:
+            self.init.append(np.full(t.data.shape, np.nan if self.poison else 0, dtype=kind))
         self.flags.append((True, t.data.ndim <= 1))
         self.bdt.append(DT[str(t.data.dtype)][2])
         return '(Leaf %d)' % (len(self.objs) - 1)
@@ -488,7 +495,20 @@ CX_SC = [0, 1, -1, 2, 0.5, 1j, 1 - 1j, -2j]
 DIV_SC = [2, -4, 0.5, 1, -1, 3]
 
 
-def space_case(rng, recipe, op, poison=False):
+SPECIAL_OPS = ['multiply', 'divide', 'mul', 'imul', 'truediv', 'itruediv', 'rtruediv', 'rtruediv_s', 'mul_s', 'add', 'isub']
+
+
+def inject(rng, el, values):
+    """Overwrite about a third (at least one) of the entries of every leaf with special values."""
+    for t in leaf_tensors(el):
+        flat = t.data.reshape(-1) if t.data.flags.c_contiguous else None
+        n = t.data.size
+        idx = [k for k in range(min(n, 400)) if rng.random() < 0.34] or [0]
+        for k in idx:
+            t.data[np.unravel_index(k, t.data.shape)] = rng.choice(values)
+
+
+def space_case(rng, recipe, op, poison=False, special=False):
     """Run one public operation on the implementation; returns the tuple for Sets.put."""
     import odl
     leaves = leaf_recipes(recipe)
@@ -503,10 +523,10 @@ def space_case(rng, recipe, op, poison=False):
     if bases == {'int'}:
         scs = [0, 1, -1, 2, 3, 0.5, 2.5]
     kind = 'div' if 'div' in op else ('pow' if op == 'ipow' else 'any')
-    x = mk_element(rng, recipe, 'pow' if op == 'ipow' else ('div' if op == 'divide' else 'any'))
+    x = mk_element(rng, recipe, 'pow' if op == 'ipow' else ('div' if op in ('divide', 'ipow_neg') else 'any'))
     same = rng.random() < 0.2
     y = x if same else mk_element(rng, recipe, kind, share=(x if (kind == 'any' and rng.random() < 0.25) else None))
-    if op in ('itruediv', 'truediv', 'divide') and same:
+    if op in ('itruediv', 'truediv', 'divide', 'el_divide', 'truediv_arr', 'divide_noout') and same:
         x = y = mk_element(rng, recipe, 'div')
     if op == 'rtruediv':
         x = mk_element(rng, recipe, 'div')
@@ -518,12 +538,35 @@ def space_case(rng, recipe, op, poison=False):
     def nanfill(el):
         for t in leaf_tensors(el):
             t.data[...] = np.nan
+    if special:
+        # exact zeros in divisors (x/0 = inf, 0/0 = nan: non-finite = None in the model), zeros / inf / nan in
+        # numerators and factors; no inf in divisors (1/inf = 0 is finite, the model conflates inf and nan)
+        num, den = [0.0, np.inf, -np.inf, np.nan, 0.0], [0.0]
+        if op in ('truediv', 'itruediv'):
+            inject(rng, x, num)
+            if y is not x:
+                inject(rng, y, den)
+        elif op == 'rtruediv':
+            inject(rng, x, den)
+            if y is not x:
+                inject(rng, y, num)
+        elif op == 'rtruediv_s':
+            inject(rng, x, den)
+        elif op == 'divide':
+            inject(rng, x, den); inject(rng, y, den)
+        else:
+            inject(rng, x, num)
+            if y is not x:
+                inject(rng, y, num)
     z = None
     lc1_out = None
     if op in ('lincomb2', 'multiply', 'divide'):
         z = mk_element(rng, recipe, kind)
+        if special:
+            inject(rng, z, [0.0])
         alias = rng.choice(sorted(ALIAS))
-        if poison and bases.isdisjoint({'int'}) and ALIAS[alias][2] not in ALIAS[alias][:2]:
+        if poison and bases.isdisjoint({'int'}) and ALIAS[alias][2] not in ALIAS[alias][:2] \
+                and (not special or rng.random() < 0.5):     # (special: also finite old contents)
             nanfill([x, y, z][ALIAS[alias][2]])       # old contents of a non-operand out: garbage
     if poison and op == 'assign' and not same and y is not x \
             and not any(a_ is b_ for a_ in leaf_tensors(x) for b_ in leaf_tensors(y)):
@@ -534,7 +577,7 @@ def space_case(rng, recipe, op, poison=False):
             nanfill(y)
     tx = ctx.term(x)
     ty = ctx.term(y)
-    desc = {'op': op, 'space': repr(recipe), 'same': same, 'poison': poison}
+    desc = {'op': op, 'space': repr(recipe), 'same': same, 'poison': poison, 'special': special}
     err = 0
     res = None
     cl = lambda v: lit(carrier, v)
@@ -605,6 +648,47 @@ def space_case(rng, recipe, op, poison=False):
                     wop = 'WCopyLeaf %s %s' % (tx.split()[1].rstrip(')'), ctx.term(res, True).split()[1].rstrip(')'))
                 else:
                     wop = '%s %s %s' % ('WNeg' if op == 'neg' else 'WPos', tx, ctx.term(res, True))
+            elif op in ('add_arr', 'iadd_arr', 'sub_arr', 'rsub_arr', 'mul_arr', 'imul_arr', 'truediv_arr'):
+                # array-like operand: the operator builds space.element(other) and calls itself again
+                def nested(el):
+                    if _is_pse(el):
+                        return [nested(pp) for pp in el.parts]
+                    return np.asarray(el).tolist()
+                arr = nested(y)
+                leaves_y = [np.array(t.data, copy=True) for t in leaf_tensors(y)]
+                th = ctx.hidden_like(y, leaves_y)
+                f = {'add_arr': lambda: x + arr, 'iadd_arr': lambda: x.__iadd__(arr), 'sub_arr': lambda: x - arr,
+                     'rsub_arr': lambda: arr - x, 'mul_arr': lambda: x * arr, 'imul_arr': lambda: x.__imul__(arr),
+                     'truediv_arr': lambda: x / arr}[op]
+                res = f()
+                nm = {'add_arr': 'WAdd', 'iadd_arr': 'WIAdd', 'sub_arr': 'WSub', 'rsub_arr': 'WRSub', 'mul_arr': 'WMul',
+                      'imul_arr': 'WIMul', 'truediv_arr': 'WTrueDiv'}[op]
+                if op.startswith('i'):
+                    assert res is x
+                    wop = '%s %s %s' % (nm, tx, th)
+                else:
+                    wop = '%s %s %s %s' % (nm, tx, th, ctx.term(res, True))
+            elif op in ('el_lincomb', 'multiply_noout', 'divide_noout', 'el_multiply', 'el_divide'):
+                if op == 'el_lincomb':          # x.lincomb(a, y, b, z): out = self
+                    a, b = rng.choice(CX_PAIRS if cxs else (INT_PAIRS[:11] if bases == {'int'} else REAL_PAIRS))
+                    z2 = mk_element(rng, recipe, 'any')
+                    tz2 = ctx.term(z2)
+                    res = x.lincomb(a, y, b, z2)
+                    assert res is x
+                    wop = 'WLincomb2 %s %s %s %s %s' % (cl(a), ty, cl(b), tz2, tx)
+                elif op in ('multiply_noout', 'el_multiply'):
+                    res = space.multiply(x, y) if op == 'multiply_noout' else x.multiply(y)
+                    wop = 'WMultiply %s %s %s' % (tx, ty, ctx.term(res, True))
+                else:
+                    res = space.divide(x, y) if op == 'divide_noout' else x.divide(y)
+                    wop = 'WDivide %s %s %s' % (tx, ty, ctx.term(res, True))
+            elif op == 'ipow_neg':
+                pw = rng.randint(1, 3)
+                desc['p'] = -pw
+                res = x.__ipow__(-pw)
+                assert res is x
+                wop = 'WIPowNeg %s %s %d %s %s %s' % (C.b(_is_pse(x)), tx, pw, ctx.hidden_like(x), ctx.hidden_like(x),
+                                                      ctx.hidden_like(x))
             elif op == 'ipow':
                 pw = rng.randint(0, 6)
                 desc['p'] = pw
@@ -625,6 +709,10 @@ def space_case(rng, recipe, op, poison=False):
         nm = {'itruediv': 'WITrueDiv %s %s' % (tx, ty), 'truediv': 'WTrueDiv %s %s %s' % (tx, ty, ctx.hidden_like(x)),
               'rtruediv': 'WRTrueDiv %s %s %s' % (tx, ty, ctx.hidden_like(x)),
               'rtruediv_s': 'WRTrueDivS %s %s %s' % (tx, cl(c), ctx.hidden_like(x)),
+              'truediv_arr': 'WTrueDiv %s %s %s' % (tx, ty, ctx.hidden_like(x)),
+              'divide_noout': 'WDivide %s %s %s' % (tx, ty, ctx.hidden_like(x)),
+              'el_divide': 'WDivide %s %s %s' % (tx, ty, ctx.hidden_like(x)),
+              'ipow_neg': 'WDivide %s %s %s' % (tx, tx, tx),
               'divide': 'WDivide %s %s %s' % (tx, ty, tx)}
         if op not in nm:
             raise AssertionError('unexpected casting error in %s' % op)
@@ -639,7 +727,7 @@ def space_case(rng, recipe, op, poison=False):
                '; '.join(compress(carrier, a) for a in final), err))
     desc['err'] = err
     desc['shape'] = [max(int(np.prod(l[2])) for l in leaves)]
-    key = (op, repr(recipe), same, poison, desc.get('alias'), desc.get('a'), desc.get('b'), desc.get('c'),
+    key = (op, repr(recipe), same, poison, special, desc.get('alias'), desc.get('a'), desc.get('b'), desc.get('c'),
            desc.get('p'), err)
     return term, desc, key, carrier, tol
 
@@ -693,7 +781,9 @@ def bcast_case(rng, child, n, k, inplace, poison=False):
 OPS = ['lincomb2', 'lincomb1', 'multiply', 'divide', 'assign', 'set_zero', 'copy',
        'iadd', 'isub', 'imul', 'itruediv', 'add', 'sub', 'mul', 'truediv', 'rsub', 'rtruediv',
        'iadd_s', 'isub_s', 'imul_s', 'itruediv_s', 'add_s', 'radd_s', 'sub_s', 'rsub_s', 'mul_s', 'rmul_s',
-       'truediv_s', 'rtruediv_s', 'neg', 'pos', 'ipow']
+       'truediv_s', 'rtruediv_s', 'neg', 'pos', 'ipow', 'ipow_neg',
+       'add_arr', 'iadd_arr', 'sub_arr', 'rsub_arr', 'mul_arr', 'imul_arr', 'truediv_arr',
+       'el_lincomb', 'multiply_noout', 'divide_noout', 'el_multiply', 'el_divide']
 
 
 def rand_recipe(rng, base, depth):
@@ -728,13 +818,21 @@ def space_cases(rng, tier, S):
         recipes.append(rand_recipe(rng, rng.choice(['real', 'real', 'cx', 'int', 'mixed']), rng.randint(1, 3)))
     reps = 1 if quick else 3
     for r in recipes:
+        bases = set(DT[l[1]][0] for l in leaf_recipes(r))
         for op in OPS:
+            if op == 'ipow_neg' and 'int' in bases:
+                continue            # integers to negative powers raise (not an arithmetic result)
             for _ in range(reps):
                 S.put('sp', 'x', space_case(rng, r, op), CHECKW, 'caseW %s')
-        bases = set(DT[l[1]][0] for l in leaf_recipes(r))
         if 'int' not in bases:
-            for op in (OPS if not quick else rng.sample(OPS, 12)):
+            for op in (OPS if not quick else rng.sample(OPS, 14)):
                 S.put('sp', 'x', space_case(rng, r, op, poison=True), CHECKW, 'caseW %s')
+    # zeros / inf / nan in operands of the multiply / divide family (IEEE result at every entry,
+    # non-finite = None at the poisoned carrier), old contents of explicit outputs NaN or finite
+    for r in [rc for rc in recipes if 'int' not in set(DT[l[1]][0] for l in leaf_recipes(rc))][:(14 if quick else 40)]:
+        for op in SPECIAL_OPS:
+            for _ in range(1 if quick else 2):
+                S.put('sp', 'x', space_case(rng, r, op, poison=True, special=True), CHECKW, 'caseW %s')
     # power-space broadcasting
     children = [('T', 'float64', (3,)), ('D', 'float64', (2, 3)), ('T', 'complex128', (2,)), ('T', 'float64', (100,)),
                 ('P', [('T', 'float64', (2,)), ('D', 'float64', (3,))])]
@@ -753,7 +851,7 @@ def space_cases(rng, tier, S):
 
 # ------------------------------------------------------------------ framework entry points
 def translate():
-    return {'Gen/Lincomb.v': TL.translate()}
+    return {'Gen/Lincomb.v': TL.translate(), 'Gen/SpaceOps.v': TS.translate()}
 
 
 def correspondence(rng, tier):
@@ -839,6 +937,122 @@ def oracle(kind, **p):
                         if not np.array_equal(np.asarray(t.data), u):
                             ok = False
             return ok, obs, exp
+        if kind == 'special':
+            # multiply / divide family with exact zeros, inf, nan: IEEE result at EVERY entry (inf and nan
+            # positions included); explicit outputs pre-filled with NaN or a finite sentinel
+            import random as _r
+            prng = _r.Random(p['seed'])
+            recipe, op = p['recipe'], p['op']
+            space = mk_space(recipe)
+            x = mk_element(prng, recipe, 'any'); y = x if p.get('same') else mk_element(prng, recipe, 'any')
+            z = mk_element(prng, recipe, 'any')
+            inject(prng, x, [0.0, np.inf, -np.inf, np.nan, 0.0, 1.0])
+            if y is not x:
+                inject(prng, y, [0.0, 0.0, np.inf, np.nan, 2.0])
+            for t in leaf_tensors(z):
+                t.data[...] = np.nan if p['fill'] == 'nan' else 7.0
+            lx = [np.array(t.data, copy=True) for t in leaf_tensors(x)]
+            ly = [np.array(t.data, copy=True) for t in leaf_tensors(y)]
+            c = p.get('c', 2.0)
+            f = {'truediv': lambda u, v: u / v, 'itruediv': lambda u, v: u / v, 'rtruediv_s': lambda u, v: c / u,
+                 'mul': lambda u, v: v * u, 'imul': lambda u, v: v * u, 'divide_out': lambda u, v: u / v,
+                 'multiply_out': lambda u, v: u * v, 'divide_out_x2': lambda u, v: u / v,
+                 'divide_out_x1': lambda u, v: u / v, 'truediv_s': lambda u, v: u / c}[op]
+            want = [f(u, v) for u, v in zip(lx, ly)]
+            g = {'truediv': lambda: x / y, 'itruediv': lambda: x.__itruediv__(y), 'rtruediv_s': lambda: c / x,
+                 'mul': lambda: x * y, 'imul': lambda: x.__imul__(y),
+                 'divide_out': lambda: space.divide(x, y, out=z), 'multiply_out': lambda: space.multiply(x, y, out=z),
+                 'divide_out_x2': lambda: space.divide(x, y, out=y), 'divide_out_x1': lambda: space.divide(x, y, out=x),
+                 'truediv_s': lambda: x / c}[op]
+            res = g()
+            got = [np.asarray(t.data) for t in leaf_tensors(res)]
+            ok = len(got) == len(want) and all(
+                np.allclose(gv, wv, rtol=1e-6, atol=0, equal_nan=True) and np.array_equal(np.isnan(gv), np.isnan(wv))
+                and np.array_equal(np.isinf(gv), np.isinf(wv)) for gv, wv in zip(got, want))
+            if res is not x and op not in ('itruediv', 'imul', 'divide_out_x1'):
+                ok = ok and all(np.array_equal(t.data, u, equal_nan=True) for t, u in zip(leaf_tensors(x), lx))
+            if res is not y and y is not x and op != 'divide_out_x2':
+                ok = ok and all(np.array_equal(t.data, v, equal_nan=True) for t, v in zip(leaf_tensors(y), ly))
+            return ok, [gv.ravel()[:5].tolist() for gv in got][:2], [np.asarray(wv).ravel()[:5].tolist() for wv in want][:2]
+        if kind == 'int_exact':
+            # integer spaces with magnitudes beyond 2**53: compared exactly with Python integers
+            import random as _r
+            prng = _r.Random(p['seed'])
+            dtype, n, op = p['dtype'], p['n'], p['op']
+            lo = 0 if dtype.startswith('u') else -(2 ** 60)
+
+            def big():
+                return [prng.choice([prng.randint(lo, 2 ** 60), 2 ** 53 + prng.randint(1, 99), 2 ** 60 + 1,
+                                     prng.randint(lo // 2 ** 6, 2 ** 54), prng.randint(0, 9)]) for _ in range(n)]
+            sk = p.get('space', 'tensor')
+            if sk == 'tensor':
+                space = odl.tensor_space(n, dtype=dtype); mk = lambda v: space.element(np.array(v, dtype=dtype))
+                val = lambda e: [int(t) for t in e.data]
+            elif sk == 'discr':
+                space = odl.uniform_discr(0, 1, n, dtype=dtype); mk = lambda v: space.element(np.array(v, dtype=dtype))
+                val = lambda e: [int(t) for t in e.tensor.data]
+            else:
+                base_ = odl.tensor_space(n, dtype=dtype); space = odl.ProductSpace(base_, 2)
+                mk = lambda v: space.element([np.array(v, dtype=dtype), np.array(v[::-1], dtype=dtype)])
+                val = lambda e: [int(t) for part in e for t in part.data]
+            vx, vy, vz = big(), big(), big()
+            els = [mk(vx), mk(vy), mk(vz)]
+            pv = [val(e) for e in els]
+            k = p.get('c', 2)
+            md = 2 ** 64 if dtype.startswith('u') else 0      # unsigned arithmetic is modulo 2**64
+            if op == 'lincomb':
+                ix1, ix2, iout = ALIAS[p['alias']]
+                a, b = p['a'], p['b']
+                want = [(a * u + b * v) % md if md else a * u + b * v for u, v in zip(pv[ix1], pv[ix2])]
+                res = space.lincomb(a, els[ix1], b, els[ix2], out=els[iout])
+                ok = val(res) == want
+                for j in range(3):
+                    if j != iout:
+                        ok = ok and val(els[j]) == pv[j]
+                return ok, val(res)[:4], want[:4]
+            x, y = els[0], (els[0] if p.get('same') else els[1])
+            px, py = pv[0], (pv[0] if p.get('same') else pv[1])
+            table = {
+                'add': (lambda: x + y, lambda u, v: u + v), 'sub': (lambda: x - y, lambda u, v: u - v),
+                'iadd': (lambda: x.__iadd__(y), lambda u, v: u + v), 'isub': (lambda: x.__isub__(y), lambda u, v: u - v),
+                'neg': (lambda: -x, lambda u, v: -u), 'pos': (lambda: +x, lambda u, v: u),
+                'copy': (lambda: x.copy(), lambda u, v: u), 'assign': (lambda: x.assign(y), lambda u, v: v),
+                'mul_s': (lambda: x * k, lambda u, v: u * k), 'rmul_s': (lambda: k * x, lambda u, v: u * k),
+                'imul_s': (lambda: x.__imul__(k), lambda u, v: u * k),
+                'add_s': (lambda: x + k, lambda u, v: u + k), 'rsub_s': (lambda: k - x, lambda u, v: k - u),
+                'sub_s': (lambda: x - k, lambda u, v: u - k), 'iadd_s': (lambda: x.__iadd__(k), lambda u, v: u + k),
+                'rsub': (lambda: x.__rsub__(y), lambda u, v: v - u), 'lincomb1': (lambda: space.lincomb(k, x), lambda u, v: k * u),
+            }
+            run, fn = table[op]
+            want = [fn(u, v) % md if md else fn(u, v) for u, v in zip(px, py)]
+            res = run()
+            got = val(res)
+            ok = got == want
+            if y is not x and op != 'assign':
+                ok = ok and val(y) == py
+            return ok, got[:4], want[:4]
+        if kind == 'reject':
+            # operands from another space are rejected with an exception and nothing is modified
+            import random as _r
+            prng = _r.Random(p['seed'])
+            r1, r2, op = p['recipe'], p['other'], p['op']
+            x = mk_element(prng, r1, 'any'); y = mk_element(prng, r2, 'any'); z = mk_element(prng, r1, 'any')
+            lx = [np.array(t.data, copy=True) for t in leaf_tensors(x)]
+            ly = [np.array(t.data, copy=True) for t in leaf_tensors(y)]
+            lz = [np.array(t.data, copy=True) for t in leaf_tensors(z)]
+            space = x.space
+            g = {'add': lambda: x + y, 'iadd': lambda: x.__iadd__(y), 'sub': lambda: x - y, 'mul': lambda: x * y,
+                 'imul': lambda: x.__imul__(y), 'truediv': lambda: x / y, 'assign': lambda: x.assign(y),
+                 'lincomb_x2': lambda: space.lincomb(1, x, 2, y, out=z), 'lincomb_out': lambda: space.lincomb(1, x, 2, z, out=y),
+                 'lincomb_x1': lambda: space.lincomb(1, y, 2, x, out=z), 'multiply': lambda: space.multiply(x, y, out=z),
+                 'divide_out': lambda: space.divide(x, z, out=y)}[op]
+            try:
+                g()
+                ok, obs = False, 'returned'
+            except (TypeError, ValueError) as e:
+                ok, obs = True, type(e).__name__
+            same = all(np.array_equal(t.data, u) for e_, l_ in ((x, lx), (y, ly), (z, lz)) for t, u in zip(leaf_tensors(e_), l_))
+            return ok and same, obs, 'TypeError/LinearSpaceTypeError, operands untouched'
         if kind == 'set_zero':
             space = odl.tensor_space(p['n'], dtype=p['dtype']) if p.get('space', 'tensor') == 'tensor' else \
                 odl.uniform_discr(0, 1, p['n'], dtype=p['dtype'])
@@ -1033,6 +1247,49 @@ def probes(rng, tier):
                 _probe(out, 'op-%s-large-nd-%s-%s' % (op, _spacekind(r), ''.join(lays)),
                        '%s on %r, x in %s order, y in %s order' % (op, r, lays[0], lays[1]),
                        'op', recipe=r, op=op, same=False, c=2, seed=rng.randint(0, 10 ** 6), layouts=lays)
+    # 1e. multiply / divide family with exact zeros, inf, nan in the operands, outputs pre-filled
+    sp_recipes = [('T', 'float64', (5,)), ('T', 'float64', (120,)), ('D', 'float64', (3, 4)), ('T', 'complex128', (4,)),
+                  ('P', [('T', 'float64', (3,)), ('D', 'float64', (2, 2))]),
+                  ('P', [('P', [('T', 'float64', (2,))] * 2), ('T', 'float32', (3,))])]
+    for r in sp_recipes:
+        for op in ('truediv', 'itruediv', 'rtruediv_s', 'mul', 'imul', 'divide_out', 'multiply_out',
+                   'divide_out_x1', 'divide_out_x2'):
+            for fill in ('nan', 'finite'):
+                for same in ((False, True) if op in ('truediv', 'itruediv', 'mul', 'imul') else (False,)):
+                    for rep in range(1 if quick else 3):
+                        _probe(out, 'special-values-%s-%s%s' % (op, _spacekind(r), '-self' if same else ''),
+                               '%s on %r with zeros/inf/nan in the operands (old out: %s): IEEE result at every entry'
+                               % (op, r, fill), 'special', recipe=r, op=op, fill=fill, same=same, c=rng.choice([2.0, -1.0, 0.5]),
+                               seed=rng.randint(0, 10 ** 6))
+    # 1f. integer spaces with entries beyond 2**53, exact comparison with Python integers
+    for dtype in ('int64', 'uint64'):
+        for sk in ('tensor', 'discr', 'pspace'):
+            for n in (3, 120):
+                for alias in ALIAS:
+                    for a, b in [(1, 1), (1, -1), (-1, 1), (0, 1), (1, 0), (2, -1)]:
+                        neg = (a < 0 or b < 0) and dtype == 'uint64'
+                        _probe(out, 'uint64-negative-scalar-inexact' if neg else 'int-exact-lincomb-%s-%s' % (sk, alias),
+                               '%s %s(%d): lincomb(%d, x1, %d, x2, out), alias %s, entries up to 2**60, exact' % (sk, dtype, n, a, b, alias),
+                               'int_exact', dtype=dtype, n=n, op='lincomb', alias=alias, a=a, b=b, space=sk,
+                               seed=rng.randint(0, 10 ** 6))
+                for op in ('add', 'sub', 'iadd', 'isub', 'neg', 'pos', 'copy', 'assign', 'mul_s', 'rmul_s', 'imul_s', 'add_s',
+                           'rsub_s', 'sub_s', 'iadd_s', 'rsub', 'lincomb1'):
+                    for same in ((False, True) if op in ('add', 'sub', 'iadd', 'isub') else (False,)):
+                        neg = dtype == 'uint64' and op in ('sub', 'isub', 'neg', 'rsub_s', 'sub_s', 'rsub')
+                        _probe(out, 'uint64-negative-scalar-inexact' if neg else 'int-exact-%s-%s' % (op, sk),
+                               '%s %s(%d): %s%s with entries up to 2**60, exact' % (sk, dtype, n, op, ' (self)' if same else ''),
+                               'int_exact', dtype=dtype, n=n, op=op, same=same, space=sk, c=rng.choice([1, 2, 3]),
+                               seed=rng.randint(0, 10 ** 6))
+    # 1g. operands that are not elements of the space are rejected and nothing is modified
+    pairs_r = [(('T', 'float64', (3,)), ('T', 'float64', (4,))), (('T', 'float64', (3,)), ('T', 'float32', (3,))),
+               (('T', 'float64', (3,)), ('T', 'complex128', (3,))), (('D', 'float64', (3,)), ('T', 'float64', (3,))),
+               (('P', [('T', 'float64', (2,))] * 2), ('P', [('T', 'float64', (2,))] * 3)),
+               (('P', [('T', 'float64', (2,)), ('T', 'float64', (3,))]), ('P', [('T', 'float64', (3,)), ('T', 'float64', (2,))]))]
+    for r1, r2 in pairs_r:
+        for op in ('add', 'iadd', 'sub', 'mul', 'imul', 'truediv', 'assign', 'lincomb_x1', 'lincomb_x2', 'lincomb_out',
+                   'multiply', 'divide_out'):
+            _probe(out, 'reject-foreign-operand-%s' % op, '%s with an operand of %r in %r raises and modifies nothing' % (op, r2, r1),
+                   'reject', recipe=r1, other=r2, op=op, seed=rng.randint(0, 10 ** 6))
     # 2. set_zero() on garbage
     for n in [1, 3, 99, 100, 101, 50000]:
         for fill in ('nan', 'inf'):
@@ -1113,7 +1370,11 @@ TRUSTED = ['translate/lincomb.py (Python ast -> Gallina: thresholds, regime test
            '(x.data, ravel(order=ravel_order), get_blas_funcs) are pinned textually',
            'C01/Model.v interpreter of the generated syntax; C01/ModelSpace.v transcription of '
            'odl/set/space.py operators and odl/space/pspace.py recursion (validated by the correspondence)',
-           'Q-instance of the carrier class computes the rational restriction of the proved field instance']
+           'the Q instance is proved to be the rational restriction of the R instance for _lincomb and for every '
+           'regenerated operator program on nested spaces (Props: *_is_rational_restriction); for __ipow__, '
+           'broadcasting, the complex and the poisoned carriers this link is not proved',
+           'translate/space_ops.py (wrapper layers -> Gen/SpaceOps.v), fail-closed; __ipow__, __neg__, __pos__, '
+           '__radd__, __rmul__, copy are pinned textually']
 LEVEL_TEXT = ('Proof: for the decision tree, fallback bodies, direct expression, thresholds and regime rule regenerated '
               'from _lincomb_impl on every run, Coq proves over ANY field (reals and complex numbers are instances) '
               'that for every size (all three regimes, chosen by the regenerated dispatch and _blas_is_applicable, which '
